@@ -17,7 +17,10 @@ import kani_unit
 import registry
 import verus_unit
 
-SCRATCH = "/var/tmp/verif-mutant"
+import hashlib
+
+# one scratch location per /verif checkout (a background snapshot run and the live tree must not share it)
+SCRATCH = "/var/tmp/verif-mutant-" + hashlib.sha1(os.path.dirname(os.path.dirname(os.path.abspath(__file__))).encode()).hexdigest()[:8]
 
 
 def _copy_tree(repo):
